@@ -89,7 +89,7 @@ inductive SetArgs where
   | many (xs : Fields)
 
 /-- Tail of `_compute_jde` on the path `utc2tt=False, leap_seconds=0.0, local=False`:
-    `deltasec = 0.0; return jde + deltasec / DAY2SEC` (Epoch.py:412-430). -/
+    `deltasec = 0.0; return jde + deltasec / DAY2SEC` (Epoch.py:417-435). -/
 def compute_jde_tt (y m : Int) (d : Num) : Num :=
   compute_jde y m d + 0.0 / 86400.0
 
